@@ -64,6 +64,35 @@ func vq(src, name string, kv ...sx.Sexp) sx.Sexp {
 	return sx.T("q", xs...)
 }
 
+// an object type in a context with the property expanded
+func vj(src string, dflt bool, kv ...sx.Sexp) sx.Sexp {
+	xs := []sx.Sexp{sx.Str(src), sx.Bool(dflt)}
+	for i := 0; i+1 < len(kv); i += 2 {
+		xs = append(xs, sx.L(sx.Str(kv[i].Args()[0].MustStr()), kv[i+1]))
+	}
+	return sx.T("j", xs...)
+}
+
+// values for the contexts with the property expanded: an object type is (j …) wherever it is not inside the init hash of another one
+func expandedPool() []sx.Sexp {
+	tInt, tStr, tAny := vt("Integer", "Integer"), vt("String", "String"), vt("Any", "Any")
+	pairQ := vq("Verif::Pair", "Verif::Pair")
+	pair := vj("Verif::Pair", false, vs("name"), vs("Verif::Pair"), vs("attributes"), vh(vs("a"), tAny, vs("b"), tAny))
+	one := vj("Verif::One", false, vs("name"), vs("Verif::One"), vs("attributes"), vh(vs("v"), tAny))
+	anonA := vj("Object[{attributes => {'a' => Integer}}]", false, vs("attributes"), vh(vs("a"), tInt))
+	anonB := vj("Object[{attributes => {'a' => Integer, 'b' => {'type' => String, 'value' => 'x'}}, functions => {'f' => Callable[Integer]}}]", false,
+		vs("attributes"), vh(vs("a"), tInt, vs("b"), vh(vs("type"), tStr, vs("value"), vs("x"))),
+		vs("functions"), vh(vs("f"), vt("Callable[Integer]", "Callable", tInt)))
+	child := vj("Object[{parent => Verif::Pair, attributes => {'c' => Integer}, equality => ['c']}]", false,
+		vs("parent"), pairQ, vs("attributes"), vh(vs("c"), tInt), vs("equality"), va(vs("c")))
+	return []sx.Sexp{
+		pair, one, vj("Object", true), vj("Verif::Unit", false, vs("name"), vs("Verif::Unit")), anonA, anonB, child,
+		va(vi(1), pair, vs("x")), va(pair, anonA), vh(vs("t"), one, vs("u"), tInt), vo("Verif::One", vs("v"), pair),
+		va(va(vj("Object", true)), vh(vs("k"), anonA)), tInt, vt("Integer[0, 9]", "Integer", vi(0), vi(9)), vi(5), vs("s"), va(vi(1), vs("a")),
+		vl("Verif::Ints", "Verif::Ints", vt("Array[Integer]", "Array")),
+	}
+}
+
 // aliases and object types as values (TypeAliasType.ToString, objectType.ToString / basicTypeToString)
 func aliasObjTypePool() []sx.Sexp {
 	tInt, tStr := vt("Integer", "Integer"), vt("String", "String")
@@ -292,6 +321,9 @@ func scalarModelled(e sx.Sexp, d dir) bool {
 }
 
 func modelled(e sx.Sexp, m []entry, entryMode bool) bool {
+	if e.Tag() == "j" {
+		return true // the pool of expanded object types holds no floats and no invalid text
+	}
 	if !entryMode && e.Tag() == "o" && e.Args()[0].MustStr() == "" {
 		// an instance of an anonymous object type is written as the Hash of its init hash
 		return modelled(sx.T("h", e.Args()[1:]...), m, false)
@@ -471,7 +503,7 @@ func emitFmt(g *core.G, ctx sx.Sexp, v sx.Sexp) {
 	mode := ctx.Tag()
 	in := false
 	switch mode {
-	case "kind":
+	case "kind", "xkind":
 		n := newNode(ctx.Args()[0].MustStr())
 		k := kindKey(v.Tag())
 		in = modelled(v, []entry{{key: k, n: n}}, false)
@@ -480,7 +512,7 @@ func emitFmt(g *core.G, ctx sx.Sexp, v sx.Sexp) {
 		n := newNode(ctx.Args()[0].MustStr())
 		// an alias or an object type under its own type as the key: which nested types that key accepts is a lattice question
 		in = modelled(v, []entry{{key: "self", n: n}}, false) && v.Tag() != "l" && v.Tag() != "q"
-	case "map":
+	case "map", "xmap":
 		in = mapValid(ctx) && modelled(v, entriesOfNoType(ctx.Args()), false)
 	case "mmap":
 		in = mapValid(ctx) && mergedModelled(v, entriesOfNoType(ctx.Args()))
@@ -496,7 +528,7 @@ func emitFmt(g *core.G, ctx sx.Sexp, v sx.Sexp) {
 		return
 	}
 	op := "fmt "
-	if hasNewKind(v) || ((mode == "map" || mode == "mmap") && hasNewKey(entriesOfNoType(ctx.Args()))) {
+	if hasNewKind(v) || mode == "xkind" || mode == "xmap" || ((mode == "map" || mode == "mmap") && hasNewKey(entriesOfNoType(ctx.Args()))) {
 		// the extended model (every value kind, the keys of every kind)
 		op = "fmtx "
 	}
@@ -564,7 +596,7 @@ func mapValid(ctx sx.Sexp) bool { return !anyInvalid(entriesOfNoType(ctx.Args())
 // latValue: only kinds the lattice model has values of (no Float: its digits are fmt's)
 func latValue(e sx.Sexp) bool {
 	switch e.Tag() {
-	case "f", "v", "w", "y", "m", "t", "o", "l", "q":
+	case "f", "v", "w", "y", "m", "t", "o", "l", "q", "j":
 		return false
 	case "z":
 		return latValue(e.Args()[0])
@@ -1267,6 +1299,7 @@ func genX(g *core.G) {
 	}
 	genTyped(g)
 	genSpan(g)
+	genExpanded(g)
 	// per-type format maps with the keys of every kind over containers that hold every kind
 	n = 2500 * g.Scale
 	for i := 0; i < n; i++ {
@@ -1709,5 +1742,36 @@ func genSpan(g *core.G) {
 			ns = r.Int63n(1<<uint(1+r.Intn(62))) * int64(1-2*r.Intn(2))
 		}
 		emit(f, ns)
+	}
+}
+
+// ---- contexts with the property expanded (what String() of an object type and px.ToString2(v, types.Expanded) use) ------------------------
+
+func genExpanded(g *core.G) {
+	r := g.Rng
+	pool := expandedPool()
+	// types.Expanded: DefaultFormats with the property
+	plainE := func(k, d string) sx.Sexp { return sx.L(sx.A(k), sx.L(sx.Str(d), sx.A("-"), sx.A("-"), sx.A("-"))) }
+	dfl := sx.T("xmap", plainE("object", "%(p"), plainE("type", "%(p"), plainE("float", "%f"), plainE("numeric", "%d"), plainE("arr", "%[a"),
+		plainE("hash", "%{h"), plainE("bin", "%B"), plainE("any", "%s"))
+	for _, v := range pool {
+		emitFmt(g, dfl, v)
+		for _, d := range []string{"%s", "%p", "%#p", "%#s", "%30p", "%-12s", "%.9p", "%d", "%a", "%<p"} {
+			emitFmt(g, ctx1("xkind", d), v)
+		}
+		emitFmt(g, sx.T("xmap"), v)
+		emitFmt(g, sx.T("xmap", plainE("type", "%#p")), v)
+		emitFmt(g, sx.T("xmap", plainE("type", "%#p"), plainE("arr", "%#a"), plainE("hash", "%#h")), v)
+		emitFmt(g, sx.T("xmap", plainE("any", "%#p")), v)
+	}
+	n := 600 * g.Scale
+	for i := 0; i < n; i++ {
+		v := pool[r.Intn(len(pool))]
+		if r.Intn(2) == 0 {
+			emitFmt(g, ctx1("xkind", randDirective(r, "j")), v)
+		} else {
+			es := randMapEntriesX(r, 2)
+			emitFmt(g, sx.T("xmap", es.List...), v)
+		}
 	}
 }
